@@ -159,10 +159,33 @@ def c13_cli(w, ev, slot):
     pa = bool(ev.get('b', 0) & 1)
     if not pa and (ref.m < 0).any():
         return 'skip:negative'
-    w.case('c13.cli', 'normalize-table', slot, ax=ax, pa=pa)
+    via_cmd = bool(ev.get('c', 0) & 1)
+    w.case('c13.cli', 'normalize-table', slot, ax=ax, pa=pa, cmd=via_cmd)
     tc = t.copy()
-    out = _normalize_table(tc, relative_abund=not pa, presence_absence=pa,
-                           axis=AXNAME[ax])
+    if via_cmd:
+        # the click command itself: file in, HDF5 file out
+        import datetime
+        import biom
+        from biom.cli.table_normalizer import normalize_table as cmd
+        tc.del_metadata()
+        inp = store.new_path(w, '.json.biom')
+        outp = store.new_path(w, '.norm.biom')
+        with open(inp, 'w', encoding='utf8') as f:
+            f.write(tc.to_json('c13', creation_date=datetime.datetime(
+                2020, 1, 1)))
+        try:
+            cmd.callback(inp, outp, not pa, pa, AXNAME[ax])
+            out = biom.load_table(outp)
+        except Exception as e:  # noqa
+            w.fail('c13.cli', 'biom normalize-table raised %r' % (e,))
+        finally:
+            for pth in (inp, outp):
+                if os.path.exists(pth):
+                    os.unlink(pth)
+        w.stats['c13.cli_command'] += 1
+    else:
+        out = _normalize_table(tc, relative_abund=not pa,
+                               presence_absence=pa, axis=AXNAME[ax])
     s = Snap(out)
     if pa:
         want = (ref.m != 0).astype(float)
@@ -195,26 +218,35 @@ def _ambiguous_md(t):
 
 def _poke(t, ref, code):
     """one read accessor chosen by code (content-preserving)"""
-    k = code % 9
-    if k == 7:
+    k = code % 10
+    if k == 9:
+        # a classic export naming a metadata column (present or not)
+        md = ref.md[0]
+        keys = sorted({kk for d in (md or []) for kk in d}) + ['no-such-key']
+        try:
+            t.to_tsv(header_key=keys[(code // 10) % len(keys)],
+                     header_value='H', metadata_formatter=str)
+        except Exception:  # noqa
+            pass
+    elif k == 7:
         t.sum()              # whole-table sum: scipy sorts indices in place
     elif k == 8:
         t.get_table_density()
     elif k == 0:
         t.nnz
     elif k == 1:
-        t.data(ref.ids[1][code // 9 % ref.n(1)], axis='sample')
+        t.data(ref.ids[1][code // 10 % ref.n(1)], axis='sample')
     elif k == 2:
-        t.data(ref.ids[0][code // 9 % ref.n(0)], axis='observation')
+        t.data(ref.ids[0][code // 10 % ref.n(0)], axis='observation')
     elif k == 3:
-        for _ in t.iter(axis=AXNAME[(code // 9) & 1]):
+        for _ in t.iter(axis=AXNAME[(code // 10) & 1]):
             pass
     elif k == 4:
         t == t
     elif k == 5:
         list(t.nonzero())
     else:
-        t.sum(axis=AXNAME[(code // 9) & 1])
+        t.sum(axis=AXNAME[(code // 10) & 1])
 
 
 def _eq3(w, a, b, what, want=True):
@@ -329,7 +361,11 @@ def c16_near(w, ev, slot):
     if kind == 0:                                   # one value
         r, c = salt % ref.n(0), (salt // 13) % ref.n(1)
         old = r2.m[r, c]
-        r2.m[r, c] = 0.0 if (old != 0 and y & 1) else old + 1.0
+        if old != 0 and y & 2:
+            # the closest different double: equality must be exact
+            r2.m[r, c] = np.nextafter(old, np.inf)
+        else:
+            r2.m[r, c] = 0.0 if (old != 0 and y & 1) else old + 1.0
         if r2.m[r, c] == old:
             r2.m[r, c] = old * 2 + 3.0
     elif kind == 1:                                 # one id
@@ -540,6 +576,7 @@ def c18_mapfile(w, ev, slot):
             w.fail('c18.mapfile', 'MetadataMap.from_file(%s, strip_quotes=%s) '
                    'parsed %r, the rows describe %r'
                    % (label, not keep_quotes, dict(got), want_direct))
+    _c18_command(w, ev, slot, ref, ax, path, want, override, kw)
     # apply through the add-metadata command (in place on this table)
     exp = ref.copy()
     cur = [dict(d) for d in exp.mdl(ax)]
@@ -563,6 +600,74 @@ def c18_mapfile(w, ev, slot):
     return 'c18_mapfile:ok'
 
 
+def _c18_command(w, ev, slot, ref, ax, path, want, override, kw):
+    """the click command: table file in, mapping file(s) in, JSON out; with
+    a second mapping file for the other axis in the same invocation"""
+    import datetime
+    import biom
+    from biom.cli.metadata_adder import add_metadata as cmd
+    if ev.get('b', 0) % 3 == 0:
+        return
+    oax = 1 - ax
+    other_ids = [i for i in ref.ids[oax] if tsv_safe_id(i) and '"' not in i]
+    both = bool(ev.get('b', 0) & 8) and bool(other_ids)
+    opath = None
+    owant = {}
+    if both:
+        opath = store.new_path(w, '.map2.tsv')
+        with open(opath, 'w', encoding='utf8') as f:
+            f.write('#ID\tNote2\n')
+            for i in other_ids[:3]:
+                f.write('%s\tn2 %s\n' % (i, len(i)))
+                owant[i] = {'Note2': 'n2 %s' % len(i)}
+    inp = store.new_path(w, '.json.biom')
+    outp = store.new_path(w, '.added.biom')
+    with open(inp, 'w', encoding='utf8') as f:
+        f.write(slot.real.to_json('c18', creation_date=datetime.datetime(
+            2020, 1, 1)))
+
+    def join(key):
+        return ','.join(kw[key]) if key in kw else None
+    hdr = ','.join(override) if override else None
+    args = dict(input_fp=inp, output_fp=outp,
+                sample_metadata_fp=path if ax == 1 else opath,
+                observation_metadata_fp=path if ax == 0 else opath,
+                sc_separated=join('sc_separated'),
+                sc_pipe_separated=join('sc_pipe_separated'),
+                int_fields=join('int_fields'),
+                float_fields=join('float_fields'),
+                sample_header=hdr if ax == 1 else None,
+                observation_header=hdr if ax == 0 else None,
+                output_as_json=True)
+    w.case('c18.add_cli', 'add-metadata command', slot, ax=ax, both=both)
+    try:
+        cmd.callback(**args)
+        got = biom.load_table(outp)
+    except Exception as e:  # noqa
+        w.fail('c18.add_cli', 'biom add-metadata raised %r' % (e,))
+    finally:
+        for pth in (inp, outp, opath):
+            if pth and os.path.exists(pth):
+                os.unlink(pth)
+    exp = ref.copy()
+    for a, mapping in ((ax, want), (oax, owant)):
+        cur = [dict(d) for d in exp.mdl(a)]
+        for k, i in enumerate(ref.ids[a]):
+            if i in mapping:
+                cur[k].update(copy.deepcopy(mapping[i]))
+        exp.md[a] = canon_md(json.loads(json.dumps(cur)))
+    s = Snap(got)
+    if s.ids != exp.ids or not np.array_equal(s.m, exp.m):
+        w.fail('c18.add_cli', 'biom add-metadata changed ids or values')
+    for a in (0, 1):
+        if not md_equal(s.md[a], exp.md[a]):
+            w.fail('c18.add_cli', 'biom add-metadata (%s mapping%s): %s '
+                   'metadata %r, expected %r'
+                   % (AXNAME[ax], ' + other axis' if both else '', AXNAME[a],
+                      s.md[a], exp.md[a]))
+    w.stats['c18.cli_command'] += 1
+
+
 # ===================================================================== C19 ==
 def _fmt3(x):
     return '%1.3f' % x
@@ -581,7 +686,24 @@ def c19_report(w, ev, slot):
         if not np.isfinite(tots).all() or not np.isfinite(tots.sum()):
             return 'skip:overflow'
     try:
-        text = _summarize_table(t, qualitative=qual, observations=obs)
+        if a & 4:
+            import datetime
+            from biom.cli.table_summarizer import summarize_table as cmd
+            inp = store.new_path(w, '.json.biom')
+            outp = store.new_path(w, '.summary.txt')
+            with open(inp, 'w', encoding='utf8') as f:
+                f.write(t.to_json('c19', creation_date=datetime.datetime(
+                    2020, 1, 1)))
+            try:
+                cmd.callback(inp, outp, qual, obs)
+                text = open(outp, encoding='utf8').read()
+            finally:
+                for pth in (inp, outp):
+                    if os.path.exists(pth):
+                        os.unlink(pth)
+            w.stats['c19.cli_command'] += 1
+        else:
+            text = _summarize_table(t, qualitative=qual, observations=obs)
     except Exception as e:  # noqa
         w.fail('c19.report', 'summarize-table raised %r' % (e,))
     lines = text.split('\n')
